@@ -88,6 +88,7 @@ class Sim:
         self.op_first_pid = 0
         self.exit_log = []      # (node idx, cid, data, destination)
         self.raw_log = []       # (node idx, cid, origin, data)
+        self.opfc_log = []      # (node idx, cid, source, data): every on_packet_from_circuit call
         self.loop_errors = []
         self.drop_next = None
         self.hold = set()       # nodes whose outgoing datagrams are silently lost
@@ -148,6 +149,7 @@ class Sim:
         real_opfc = ov.on_packet_from_circuit
 
         def on_packet_from_circuit(source_address, data, circuit_id, idx=idx):
+            self.opfc_log.append((idx, circuit_id, tuple(source_address), bytes(data)))
             if self.cur is not None:
                 self.passages[self.cur].delivered.append((idx, circuit_id, bytes(data[22:23] + data[27:])))
             return real_opfc(source_address, data, circuit_id)
@@ -545,6 +547,106 @@ class Checker:
 
 
 # ------------------------------------------------------------------------------------------------------------------
+def payload_classes(rng, own_prefix: bytes):
+    """one payload of every class that on_data / the exit's DataChecker distinguishes"""
+    rb = lambda n: bytes(rng.getrandbits(8) for _ in range(n))  # noqa: E731
+    other2 = b"\x00\x02" + rb(20)
+    other1 = b"\x00\x01" + rb(20)
+    return {
+        "empty": b"",
+        "short": rand_payload(rng, rng.randrange(1, 23)),
+        "random": rand_payload(rng, rng.choice([23, 64, 300, 1400])),
+        "zeros": b"\x00" * rng.choice([23, 40]),
+        "ipv8-other-23": other2 + b"\xee",
+        "ipv8-other-long": other2 + b"\xee" + rb(rng.choice([30, 277, 1200])),
+        "ipv8-v1": other1 + b"\xee" + rb(10),
+        "ipv8-own": own_prefix + b"\xee" + rb(rng.choice([0, 30, 400])),
+        "ipv8-short22": other2,
+        "utp": b"\x01\x00" + rb(30),
+        "tracker": struct.pack("!I", rng.randrange(4)) + rb(12),
+        "dht": b"d" + rb(rng.choice([1, 50])) + b"e",
+    }
+
+
+CT = {"DATA": "data", "IP_SEEDER": "ip", "RP_SEEDER": "rps", "RP_DOWNLOADER": "rpd"}
+
+
+async def class_round(ctx: Ctx, rng, ck: Checker, sim: Sim, kind: str, send, recv_node: int, recv_circ, origin):
+    """data entering a circuit at the far end (exit socket / other e2e end) and arriving at the circuit's owner
+    `recv_node`: for every payload class the owner must hand the identical bytes, once, with the right origin and
+    circuit, to the sink that the circuit TYPE prescribes (on_raw_data for everything on e2e circuits)."""
+    from ipv8.messaging.anonymization.endpoint import TunnelEndpoint
+    tag = ck.tag
+    ov = sim.nodes[recv_node].overlay
+    pfx = ov.get_prefix()
+    tep = isinstance(ov.endpoint, TunnelEndpoint)
+    ct = CT[recv_circ.ctype]
+    e2e = ct in ("rps", "rpd")
+    for cname, payload in payload_classes(rng, pfx).items():
+        replay = {"scenario": tag, "op": "data_class", "kind": kind, "class": cname, "ctype": ct, "payload": payload.hex(),
+                  "receiver": recv_node}
+        first = len(sim.passages)
+        sim.op_first_pid = first
+        n_raw, n_op, n_exit = len(sim.raw_log), len(sim.opfc_log), len(sim.exit_log)
+        send(payload)
+        await sim.settle()
+        ck.check_passages(first, f"{kind} class {cname}", replay)
+        raws = sim.raw_log[n_raw:]
+        reinj = [o for o in sim.opfc_log[n_op:] if o[0] == recv_node and o[3] == payload]
+        is8 = len(payload) >= 23 and payload[0:1] == b"\x00" and payload[1:2] in (b"\x01", b"\x02")
+        good_raw = raws == [(recv_node, recv_circ.circuit_id, tuple(origin), payload)]
+        if raws and not good_raw:
+            ctx.oracle_fail("on_data:wrong-delivery", f"{tag}: {kind}, {cname} payload on a {ct} circuit: on_raw_data got "
+                            f"{[(r[0], r[1], r[2], len(r[3])) for r in raws]}, not the payload once from {tuple(origin)} on circuit "
+                            f"{recv_circ.circuit_id}", replay)
+        if e2e or not is8:
+            # the property: delivered intact, exactly once, to on_raw_data
+            if not good_raw or reinj:
+                ctx.oracle_fail("on_data:not-raw", f"{tag}: {kind}, {cname} payload ({len(payload)} bytes) sent into a ready {ct} circuit did not "
+                                f"reach on_raw_data exactly once unmodified (raw deliveries {len(raws)}, re-injected as packet {len(reinj)})", replay)
+            seen = "raw" if good_raw and not reinj else "other"
+        else:
+            good_re = reinj == [(recv_node, recv_circ.circuit_id, tuple(origin), payload)]
+            seen = "raw" if raws else "ownPacket" if good_re else "dropped" if not reinj else "other"
+            if payload[:22] == pfx and not good_re:
+                ctx.oracle_fail("on_data:own-packet", f"{tag}: {kind}, tunnel-community packet returned through a {ct} circuit was not "
+                                "re-injected once, unmodified, with its origin and circuit", replay)
+        if sim.exit_log[n_exit:]:
+            ctx.oracle_fail("on_data:exited", f"{tag}: {kind}, {cname}: data for the circuit owner left through an exit socket", replay)
+        ctx.count(f"class:{kind}:{cname}:{seen}")
+        if ck.drv is not None:
+            m = ck.ask(f"sink {ct} {pfx.hex()} {int(tep)} 1 {payload.hex() or '-'}")
+            if m != seen:
+                ctx.disagree(f"{tag}: {kind}, {cname} payload on a {ct} circuit: model sink {m} != implementation {seen}",
+                             {**replay, "model": m, "impl": seen})
+        ctx.case(("class", kind, ct, cname), True)
+
+
+async def class_round_exit(ctx: Ctx, rng, ck: Checker, sim: Sim, kind: str, send, exit_node, exit_cid, ctname):
+    """data sent by the owner of a circuit toward the exit: for every payload class the exit's outside socket must be
+    handed exactly the payload (when the exit's policy lets that class out at all)."""
+    tag = ck.tag
+    pfx = sim.nodes[0].overlay.get_prefix()
+    for cname, payload in payload_classes(rng, pfx).items():
+        dest = ("8.8.4.4", 1000 + rng.randrange(60000))
+        replay = {"scenario": tag, "op": "data_class_exit", "kind": kind, "class": cname, "payload": payload.hex()}
+        first = len(sim.passages)
+        sim.op_first_pid = first
+        n_exit, n_raw = len(sim.exit_log), len(sim.raw_log)
+        xs = sim.nodes[exit_node].overlay.exit_sockets.get(exit_cid)
+        allowed = sim.open_policy or (xs is not None and xs.is_allowed(payload))
+        send(payload, dest)
+        await sim.settle()
+        ck.check_passages(first, f"{kind} class {cname}", replay)
+        outs = sim.exit_log[n_exit:]
+        if (allowed and outs != [(exit_node, exit_cid, payload, dest)]) or (not allowed and outs) or sim.raw_log[n_raw:]:
+            ctx.oracle_fail("exit_data:output", f"{tag}: {kind}, {cname} payload ({len(payload)} bytes) sent into a {ctname} circuit: exit output "
+                            f"{[(o[0], o[1], len(o[2]), o[3]) for o in outs]} instead of the payload once to {dest}", replay)
+        ctx.count(f"class:{kind}:{cname}:{'exit' if outs else 'filtered'}")
+        ctx.case(("class", kind, ctname, cname), True)
+
+
+# ------------------------------------------------------------------------------------------------------------------
 async def build_plain(ctx: Ctx, rng, hops: int, n_circuits: int, open_policy: bool):
     from ipv8.messaging.anonymization.tunnel import PEER_FLAG_EXIT_BT, PEER_FLAG_RELAY, PEER_FLAG_SPEED_TEST
     sim = Sim(rng, hidden=False, open_policy=open_policy)
@@ -724,6 +826,15 @@ async def run_plain(ctx: Ctx, rng, hops: int, use_model: bool, seed_tag: str, al
                 fut.cancel()
             ctx.case((tag.split('/')[0], hops, "test", rs, ps_), True)
             ctx.count("op:test_request")
+        # ---- every payload class, both directions --------------------------------------------------------------
+        for c, path in zip(circuits, paths):
+            exit_node, exit_cid = path[-1]
+            src = ("9.9.9.9", 2000 + rng.randrange(60000))
+            xs = sim.nodes[exit_node].overlay.exit_sockets.get(exit_cid)
+            await class_round(ctx, rng, ck, sim, "plain-bwd", lambda pl, xs=xs, src=src: xs.tunnel_data(src, pl), 0, c, src)
+            await class_round_exit(ctx, rng, ck, sim, "plain-fwd",
+                                   lambda pl, dest, c=c: ov.send_data(c.hop.address, c.circuit_id, dest, ZERO, pl),
+                                   exit_node, exit_cid, "data")
         ck.compare_tables("after genuine traffic")
         # ---- altered cells ------------------------------------------------------------------------------------
         await tamper_round(ctx, rng, ck, sim, plain_senders(sim, circuits[0], paths[0]), hops, open_policy, all_bytes_sizes)
@@ -1100,6 +1211,20 @@ async def run_e2e(ctx: Ctx, rng, use_model: bool, seed_tag: str, all_bytes_sizes
                 ctx.case(("e2e", direction, "data", size), True)
                 ctx.count(f"op:e2e_{direction}:size_class:{size_class(size)}")
                 ctx.count(f"e2e_links:{nlinks}")
+        # ---- every payload class over the e2e circuit (both ends) and over the seeder's introduction circuit ------
+        await class_round(ctx, rng, ck, sim, "e2e-to-seeder", fwd, 2, sd, ZERO)
+        await class_round(ctx, rng, ck, sim, "e2e-to-downloader", bwd, 0, d, ZERO)
+        from ipv8.messaging.anonymization.tunnel import CIRCUIT_TYPE_IP_SEEDER
+        for ipc in [c for c in o2.circuits.values() if c.ctype == CIRCUIT_TYPE_IP_SEEDER and c.state == "READY"][:1]:
+            ipath = path_of(sim, 2, ipc)
+            if ipath and sim.nodes[ipath[-1][0]].overlay.exit_sockets.get(ipath[-1][1]) is not None:
+                xn, xc = ipath[-1]
+                xs = sim.nodes[xn].overlay.exit_sockets[xc]
+                src = ("9.9.9.9", 3000 + rng.randrange(60000))
+                await class_round(ctx, rng, ck, sim, "ip-bwd", lambda pl, xs=xs, src=src: xs.tunnel_data(src, pl), 2, ipc, src)
+                await class_round_exit(ctx, rng, ck, sim, "ip-fwd",
+                                       lambda pl, dest, ipc=ipc: o2.send_data(ipc.hop.address, ipc.circuit_id, dest, ZERO, pl),
+                                       xn, xc, "ip")
         ck.compare_tables("after genuine traffic")
         await tamper_round(ctx, rng, ck, sim, senders, nlinks, True, all_bytes_sizes, kindtag="e2e")
         await inject_round(ctx, rng, ck, sim, [d], None, nlinks, senders=senders, kindtag="e2e")
